@@ -39,7 +39,6 @@ type tbl struct {
 	wgs    map[string]*int64
 	mus    map[string]*muState
 	onSync func(ev, key string)
-	onces  map[string]bool // sync.Once values that have fired, by the place they live in
 	// addrs: the addresses handed out by (reflect.Value).Pointer so far (see there)
 	addrs  map[*absint.Tok]int64
 	naddrs int
@@ -296,16 +295,6 @@ func (t *tbl) Call(ip *absint.Interp, site ssa.CallInstruction, args []absint.Va
 			}
 		}
 		return t.newErr(cal.Name()), true
-	case full == "(*sync.Once).Do" && len(args) == 2:
-		// one-time work: the function runs at the first call for this Once, never again
-		if t.onces == nil {
-			t.onces = map[string]bool{}
-		}
-		if k := syncKey(args[0]); !t.onces[k] {
-			t.onces[k] = true
-			ip.CallValue(args[1])
-		}
-		return nil, true
 	case ip.Sched && (strings.HasPrefix(full, "(*sync.WaitGroup).") || strings.HasPrefix(full, "(*sync.Mutex).") || strings.HasPrefix(full, "(*sync.RWMutex).")):
 		return t.syncOp(ip, full, args), true
 	case strings.HasPrefix(full, "(*sync.WaitGroup).") || strings.HasPrefix(full, "(*sync.Mutex).") || strings.HasPrefix(full, "(*sync.RWMutex)."):
